@@ -52,7 +52,7 @@ def gen_success_scenario(rng, n_ops=None, small=False):
     return {'seed': rng.randint(0, 10 ** 6), 'pool': pool, 'ops': ops, 'all_valid': True}
 
 
-def gen_fail_scenario(rng, kinds=('ValueError', 'Custom', 'Attr', 'KeyError', 'SystemExit', 'Wrap', 'Prefix')):
+def gen_fail_scenario(rng, kinds=('ValueError', 'Custom', 'Attr', 'KeyError', 'SystemExit', 'Wrap', 'Prefix', 'TypeError')):
     sc = gen_success_scenario(rng, n_ops=1)
     op = sc['ops'][0]
     numpy_in = op.get('input') == 'nd' and rng.random() < .6
@@ -89,7 +89,7 @@ def gen_apply_op(rng, n_jobs, with_failures=True):
     op = {'op': 'apply_batch', 'tasks': [{'idx': i, 'gap': rng.choice([0, 0, 0.01])} for i in range(k)]}
     durs = {}
     if with_failures and rng.random() < .6:
-        op['fail'] = {'at': sorted(rng.sample(range(k), rng.randint(0, min(3, k)))), 'exc': rng.choice(['ValueError', 'Custom', 'KeyError', 'Wrap', 'Prefix'])}
+        op['fail'] = {'at': sorted(rng.sample(range(k), rng.randint(0, min(3, k)))), 'exc': rng.choice(['ValueError', 'Custom', 'KeyError', 'Wrap', 'Prefix', 'TypeError'])}
     if with_failures and rng.random() < .5:
         op['task_timeout'] = 0.2
         for i in rng.sample(range(k), rng.randint(0, min(3, k))):
@@ -118,7 +118,7 @@ def gen_repeat_fail_scenario(rng):
     sc['ops'] = [copy.deepcopy(op) for _ in range(reps)]
     if rng.random() < .5:
         for o in sc['ops']:
-            o['fail']['exc'] = rng.choice(['ValueError', 'Custom', 'KeyError', 'Wrap', 'Prefix'])
+            o['fail']['exc'] = rng.choice(['ValueError', 'Custom', 'KeyError', 'Wrap', 'Prefix', 'TypeError'])
     return sc
 
 
